@@ -45,10 +45,11 @@ RECURSIVE FoldSeq(_, _, _)      \* FoldSeq(Op, acc, q) left fold
 FoldSeq(Op(_, _), acc, q) == IF q = <<>> THEN acc ELSE FoldSeq(Op, Op(acc, Head(q)), Tail(q))
 
 ---------------------------------------------------------------------------
-(* element data.  Four keys are modelled: .NAME, EDIF.identifier, .NS and  *)
-(* one user key.  "" means "key absent".                                    *)
+(* element data.  Five keys are modelled: .NAME, EDIF.identifier, .NS, a    *)
+(* flat user key k and a NESTED user value props (a list holding a dict,    *)
+(* abstracted to the token stored inside it).  "" means "key absent".       *)
 NoVal == ""
-MkData(nm, ns) == [name |-> nm, eid |-> NoVal, ns |-> ns, k |-> NoVal]
+MkData(nm, ns) == [name |-> nm, eid |-> NoVal, ns |-> ns, k |-> NoVal, props |-> NoVal]
 Policies == {"DEFAULT", "EDIF"}
 
 (* Names and identifiers are atomic tokens; case folding and EDIF legality  *)
@@ -430,6 +431,9 @@ Apply(s, c) ==
              THEN DelName(s, c.kind, c.x) ELSE SetItem(s, c.kind, c.x, "name", "<None>")
       [] c.op = "set_attr"  -> SetAttr(s, c.kind, c.x, c.key, c.val)
       [] c.op = "set_lower" -> SetAttr(s, c.kind, c.x, "lower", c.ival)
+      [] c.op = "mutate_props" ->      \* in-place edit of the nested user value: e["props"][0]["value"] = val
+             IF ~(c.kind \in FirstClass) \/ ~Exists(s, c.kind, c.x) \/ DataOf(s, c.kind, c.x).props = NoVal
+             THEN Refuse(s) ELSE Ok(SetDataField(s, c.kind, c.x, "props", c.val))
       [] c.op = "set_default" -> Ok([s EXCEPT !.nsDefault = c.val])
       [] c.op = "reset"     -> Ok(s)
 
